@@ -164,6 +164,12 @@ func init() {
 				for mi := range sc.Msgs {
 					m := &sc.Msgs[mi]
 					m.RenderFail, m.EightBit = false, false
+					if len(m.To) > 1 {
+						m.ToViaAdd = r.Bool()
+					} else if r.Chance(50) {
+						m.To = append(m.To, "second.rcpt@example.com")
+						m.ToViaAdd = true
+					}
 					mk := func() string {
 						return quoteForHeader(trickyLocals[r.Intn(len(trickyLocals))]) + "@example.com"
 					}
